@@ -9,7 +9,7 @@ Not decided: effects through values the model types as unknown (counted), behavi
 from ..lib import Toolkit, public_methods
 from ..terms import alts, is_const
 
-LEVEL_TEXT = ("static effect/alias analysis (E3) over the whole call graph of /repo/npstructures: for every read-only "
+LEVEL_TEXT = ("static effect/alias analysis (E3) and view-coherence typestate (E2) over the whole call graph of /repo/npstructures: for every read-only "
               "API entry point the set of reachable in-place constructs whose target may alias an operand or object "
               "state is computed by interprocedural freshness summaries; every such construct is a violation unless "
               "it is the recorded known finding (materialise-on-read) or an allowed pure memo. Structural necessary "
@@ -88,4 +88,13 @@ def check(ctx, tier):
                "arrayfunctions.zeros_like", "arrayfunctions.ones_like", "raggedarray.raggedslice.ragged_slice"]:
         tk.returns_fresh_field("C10/EF4", ctx.func(fq), "__data",
                                "objects returned by a read share no buffer with the array that was read")
+    # a result that depends on whether an array is still a lazy view or already materialised depends on which
+    # reads happened before: the view-coherence typestate (E2) decides that for every function at once
+    from ..coherence import Coherence, report, report_raw_access
+    from .. import viewrules
+    coh = ctx.cached("coherence", lambda: Coherence(tk))
+    report(coh, "C10/E2")
+    report_raw_access(coh, "C10/E2")
+    viewrules.step_propagation(ctx, tk, "C10/E2")
+    viewrules.column_units(ctx, tk, "C10/E2")
     return {"read_only_entry_points": len(es), "unknown_inplace_targets": len(tk.E.unknown_targets)}
